@@ -394,9 +394,9 @@ func r114(c *Ctx) {
 		}
 		c.ob(rule, "UnmarshalJSON/restored-balancer-marked-healthy", lb.Pos(), marked, true, "")
 	}
-	lbb := c.method("LoadBalancer", "beginHealthChecks")
-	_, skip := reach(nlb, nil, isReturn, func(in ssa.Instruction) bool { ci, ok := in.(*ssa.Call); return ok && isCallTo(ci.Common(), lbb) })
-	c.ob(rule, "NewLoadBalancer/probing-starts-for-restored-targets", nlb.Pos(), !skip, true, "")
+	// (beginHealthChecks is de-anchored: expanded into NewLoadBalancer) the constructor reaches Target.BeginHealthChecks
+	nBegin := len(callsTo(nlb, c.method("Target", "BeginHealthChecks")))
+	c.ob(rule, "NewLoadBalancer/probing-starts-for-restored-targets", nlb.Pos(), nBegin >= 1, true, "")
 	// MarkAllHealthy sets every target healthy and refreshes
 	upd := c.method("Target", "updateState")
 	healthy := c.enumVal(c.server, "TargetStateHealthy")
